@@ -39,7 +39,7 @@ def cases(tier, seed):
     for i in range(400 if tier == "quick" else 12000):
         ps = gen.rand_spec(rng, ("scaled_rosenbrock",), nmax=6, nmin=2, boxes=("none", "none", "lower"), starts=("interior",))
         yield {"kind": "refresh", "problem": ps, "maxcor": int(rng.integers(3, 10)), "K": 40}
-    nprob = 360 if tier == "quick" else 8000
+    nprob = 600 if tier == "quick" else 10000
     for i in range(nprob):
         ps = gen.rand_spec(rng, FAMS, nmax=8, nmin=2, boxes=("none", "mixed", "boxed", "lower", "upper"),
                            starts=("interior", "face", "vertex", "outward"), condmax=1e3)
